@@ -30,5 +30,6 @@ RULES = [
     ("C08.wqguard", lambda c, r: lfht.rule_wqguard(c, r, "C08.wqguard")),
     ("C08.bucketat", lambda c, r: lfht.rule_bucketat(c, r, "C08.bucketat")),
     ("C08.partition", lambda c, r: c09.rule_partition(c, r, "C08.partition")),
+    ("C08.mmapargs", lambda c, r: lfht.rule_mmapargs(c, r, "C08.mmapargs")),
 ]
 FLOORS = {}
